@@ -4,35 +4,47 @@
 (* or failure point:                                                       *)
 (*   a failing indexing worker arms the "bomb": the writer is dead, the    *)
 (*   documents it held are lost; the error surfaces at the next commit;    *)
-(*   a failing commit task (purge / save_metas) surfaces in that commit -  *)
-(*   before or after meta.json was replaced;                               *)
-(*   a failing merge is discarded; a failing garbage collection ignored.   *)
+(*   a failing commit task surfaces in that commit - in purge_deletes      *)
+(*   (registers untouched), in save_metas before meta.json was replaced    *)
+(*   (registers already swapped!) or after it (sync_directory failed);     *)
+(*   a failed save_metas kills the segment updater (F40 repair): nothing   *)
+(*   is published from the swapped registers any more;                     *)
+(*   a merge that ends rewrites meta.json from the committed register      *)
+(*   under the opstamp of the active metas; a failing merge is discarded;  *)
+(*   a failing garbage collection is ignored.                              *)
 (* src/indexer/index_writer.rs (index_writer_status, prepare_commit),      *)
 (* segment_updater.rs (schedule_commit, start_merge, end_merge).           *)
 (***************************************************************************)
 EXTENDS Naturals, FiniteSets
 
 CONSTANTS MaxDocs, MaxFaults,
-          DeadWriterStaysDead   \* TRUE = repaired code (F5): a writer whose worker failed refuses
+          DeadWriterStaysDead,  \* TRUE = repaired code (F5): a writer whose worker failed refuses
                                 \* add and commit; FALSE = a later commit returns Ok without the
                                 \* documents added in between
+          KillUpdaterOnSaveFail \* TRUE = repaired code (F40); FALSE = the updater keeps serving
+                                \* merges with registers that describe the failed commit
 
 VARIABLES
   alive,      \* the writer accepts work (index_writer_status)
   workers,    \* indexing workers exist (they are not re-spawned after a failed join)
+  upd,        \* the segment updater accepts tasks (not killed)
   pipeline,   \* documents handed to add_document and not yet in a segment
-  segs,       \* documents in uncommitted segments
+  segs,       \* documents in the uncommitted register
+  creg,       \* documents in the committed register
   pend,       \* oracle: documents whose add returned Ok since the last commit, plus committed
-  commd,      \* oracle: content of the last commit that returned Ok
-  disk,       \* content of the newest meta.json
+  commd,      \* oracle: [docs, op] of the last commit that returned Ok
+  disk,       \* [docs, op] of the newest meta.json
+  attempted,  \* every [docs, op] some commit call tried to publish (returned Ok or failed in its task)
   lastRes,    \* result of the last call: "ok" | "err" | "none"
   lastCall,
-  faults, nextDoc
+  faults, nextDoc, opst
 
-vars == <<alive, workers, pipeline, segs, pend, commd, disk, lastRes, lastCall, faults, nextDoc>>
+vars == <<alive, workers, upd, pipeline, segs, creg, pend, commd, disk, attempted, lastRes, lastCall, faults, nextDoc, opst>>
 
-Init == /\ alive = TRUE /\ workers = TRUE /\ pipeline = {} /\ segs = {} /\ pend = {} /\ commd = {} /\ disk = {}
-        /\ lastRes = "none" /\ lastCall = "none" /\ faults = 0 /\ nextDoc = 1
+Empty == [docs |-> {}, op |-> 0]
+Init == /\ alive = TRUE /\ workers = TRUE /\ upd = TRUE /\ pipeline = {} /\ segs = {} /\ creg = {} /\ pend = {}
+        /\ commd = Empty /\ disk = Empty /\ attempted = {Empty}
+        /\ lastRes = "none" /\ lastCall = "none" /\ faults = 0 /\ nextDoc = 1 /\ opst = 0
 
 CanFault == faults < MaxFaults
 
@@ -40,22 +52,22 @@ AddOk ==
   /\ nextDoc <= MaxDocs /\ (alive \/ ~DeadWriterStaysDead)
   /\ pipeline' = pipeline \cup {nextDoc} /\ pend' = pend \cup {nextDoc} /\ nextDoc' = nextDoc + 1
   /\ lastRes' = "ok" /\ lastCall' = "add"
-  /\ UNCHANGED <<alive, workers, segs, commd, disk, faults>>
+  /\ UNCHANGED <<alive, workers, upd, segs, creg, commd, disk, attempted, faults, opst>>
 AddErr ==
   /\ nextDoc <= MaxDocs /\ ~alive /\ DeadWriterStaysDead
   /\ nextDoc' = nextDoc + 1 /\ lastRes' = "err" /\ lastCall' = "add"
-  /\ UNCHANGED <<alive, workers, pipeline, segs, pend, commd, disk, faults>>
+  /\ UNCHANGED <<alive, workers, upd, pipeline, segs, creg, pend, commd, disk, attempted, faults, opst>>
 
-\* a worker turns pipeline documents into a segment ...
+\* a worker turns pipeline documents into a segment (add_segment is an updater task) ...
 WorkerFlush ==
-  /\ workers /\ pipeline # {}
+  /\ workers /\ pipeline # {} /\ upd
   /\ segs' = segs \cup pipeline /\ pipeline' = {}
-  /\ UNCHANGED <<alive, workers, pend, commd, disk, lastRes, lastCall, faults, nextDoc>>
-\* ... or hits an I/O error: its documents are lost, the writer is dead
+  /\ UNCHANGED <<alive, workers, upd, creg, pend, commd, disk, attempted, lastRes, lastCall, faults, nextDoc, opst>>
+\* ... or hits an I/O error (or a dead updater): its documents are lost, the writer is dead
 WorkerFail ==
-  /\ CanFault /\ workers /\ pipeline # {}
-  /\ pipeline' = {} /\ alive' = FALSE /\ faults' = faults + 1
-  /\ UNCHANGED <<workers, segs, pend, commd, disk, lastRes, lastCall, nextDoc>>
+  /\ workers /\ pipeline # {} /\ (CanFault \/ ~upd)
+  /\ pipeline' = {} /\ alive' = FALSE /\ faults' = IF upd THEN faults + 1 ELSE faults
+  /\ UNCHANGED <<workers, upd, segs, creg, pend, commd, disk, attempted, lastRes, lastCall, nextDoc, opst>>
 
 \* commit = join the workers (a failed worker surfaces here), then the commit task
 CommitJoinErr ==
@@ -63,39 +75,73 @@ CommitJoinErr ==
   /\ workers' = FALSE       \* the failed join leaves no worker behind
   /\ pipeline' = {}
   /\ lastRes' = "err" /\ lastCall' = "commit"
-  /\ UNCHANGED <<alive, segs, pend, commd, disk, faults, nextDoc>>
+  /\ UNCHANGED <<alive, upd, segs, creg, pend, commd, disk, attempted, faults, nextDoc, opst>>
 CommitDeadErr ==
   /\ ~alive /\ ~workers /\ DeadWriterStaysDead
   /\ lastRes' = "err" /\ lastCall' = "commit"
-  /\ UNCHANGED <<alive, workers, pipeline, segs, pend, commd, disk, faults, nextDoc>>
-CommitOk ==
-  /\ (alive /\ workers) \/ (~DeadWriterStaysDead /\ ~workers)
-  /\ segs' = segs \cup (IF workers THEN pipeline ELSE {}) /\ pipeline' = IF workers THEN {} ELSE pipeline
-  /\ disk' = segs' /\ commd' = segs'      \* what the commit really publishes
-  /\ lastRes' = "ok" /\ lastCall' = "commit"
-  /\ UNCHANGED <<alive, workers, pend, faults, nextDoc>>
-CommitTaskFail(afterMeta) ==
-  /\ CanFault /\ alive /\ workers
-  /\ segs' = segs \cup pipeline /\ pipeline' = {}
-  /\ disk' = IF afterMeta THEN segs' ELSE disk
-  /\ faults' = faults + 1
+  /\ UNCHANGED <<alive, workers, upd, pipeline, segs, creg, pend, commd, disk, attempted, faults, nextDoc, opst>>
+\* the updater was killed by an earlier failed save_metas: the task is refused
+CommitUpdDeadErr ==
+  /\ alive /\ workers /\ ~upd /\ pipeline = {}
   /\ lastRes' = "err" /\ lastCall' = "commit"
+  /\ UNCHANGED <<alive, workers, upd, pipeline, segs, creg, pend, commd, disk, attempted, faults, nextDoc, opst>>
+NewCommit == [docs |-> creg \cup segs \cup (IF workers THEN pipeline ELSE {}), op |-> opst + 1]
+CommitOk ==
+  /\ (alive /\ workers /\ upd) \/ (~DeadWriterStaysDead /\ ~workers /\ upd)
+  /\ pipeline' = IF workers THEN {} ELSE pipeline
+  /\ segs' = {} /\ creg' = NewCommit.docs
+  /\ disk' = NewCommit /\ commd' = NewCommit /\ attempted' = attempted \cup {NewCommit}
+  /\ opst' = opst + 1
+  /\ lastRes' = "ok" /\ lastCall' = "commit"
+  /\ UNCHANGED <<alive, workers, upd, pend, faults, nextDoc>>
+\* the commit task fails: where = "purge" | "before" (save_metas, meta.json not replaced) | "after"
+CommitTaskFail(where) ==
+  /\ CanFault /\ alive /\ workers /\ upd
+  /\ pipeline' = {}
+  /\ faults' = faults + 1 /\ opst' = opst + 1
+  /\ lastRes' = "err" /\ lastCall' = "commit"
+  /\ IF where = "purge"
+     THEN /\ segs' = segs \cup pipeline
+          /\ UNCHANGED <<creg, disk, attempted, upd>>
+     ELSE /\ segs' = {} /\ creg' = NewCommit.docs
+          /\ disk' = IF where = "after" THEN NewCommit ELSE disk
+          /\ attempted' = attempted \cup {NewCommit}
+          /\ upd' = ~KillUpdaterOnSaveFail
   /\ UNCHANGED <<alive, workers, pend, commd, nextDoc>>
 
+\* a merge of committed segments ends: meta.json is rewritten from the committed register under the
+\* opstamp of the active metas (= the last save_metas that did not fail before the replacement)
+MergeEnd ==
+  /\ upd /\ creg # {}
+  /\ disk' = [docs |-> creg, op |-> disk.op]
+  /\ UNCHANGED <<alive, workers, upd, pipeline, segs, creg, pend, commd, attempted, lastRes, lastCall, faults, nextDoc, opst>>
+\* a merge that fails (I/O error in the merge thread or in its end_merge task before save_metas) is discarded
+MergeFail ==
+  /\ CanFault /\ upd /\ creg # {}
+  /\ faults' = faults + 1
+  /\ UNCHANGED <<alive, workers, upd, pipeline, segs, creg, pend, commd, disk, attempted, lastRes, lastCall, nextDoc, opst>>
+
 Rollback ==
-  /\ alive' = TRUE /\ workers' = TRUE /\ pipeline' = {} /\ segs' = disk /\ pend' = disk
+  /\ alive' = TRUE /\ workers' = TRUE /\ upd' = TRUE /\ pipeline' = {} /\ segs' = {}
+  /\ creg' = disk.docs /\ pend' = disk.docs
   /\ commd' = disk      \* a failed commit that took effect is what rollback restores
   /\ lastRes' = "ok" /\ lastCall' = "rollback"
-  /\ UNCHANGED <<disk, faults, nextDoc>>
+  /\ UNCHANGED <<disk, attempted, faults, nextDoc, opst>>
 
-Next == AddOk \/ AddErr \/ WorkerFlush \/ WorkerFail \/ CommitJoinErr \/ CommitDeadErr \/ CommitOk
-        \/ CommitTaskFail(TRUE) \/ CommitTaskFail(FALSE) \/ Rollback
+Next == AddOk \/ AddErr \/ WorkerFlush \/ WorkerFail \/ CommitJoinErr \/ CommitDeadErr \/ CommitUpdDeadErr \/ CommitOk
+        \/ CommitTaskFail("purge") \/ CommitTaskFail("before") \/ CommitTaskFail("after")
+        \/ MergeEnd \/ MergeFail \/ Rollback
 Spec == Init /\ [][Next]_vars
 
+Bound == opst <= 3
 \* C11: a commit that returns Ok is complete: every document whose add returned Ok is in it
-OkCommitIsComplete == (lastCall = "commit" /\ lastRes = "ok") => disk = pend
+OkCommitIsComplete == (lastCall = "commit" /\ lastRes = "ok") => disk.docs = pend
 \* C11: the storage always holds the last successful commit, or a failed one that took effect
-LastCommitIntact == commd \subseteq disk
+LastCommitIntact == commd.docs \subseteq disk.docs /\ disk.op >= commd.op
+\* C11 (F40): meta.json is always exactly what SOME commit call tried to publish - never a mixture
+DiskIsSomeCommit == disk \in attempted
+\* the structural invariant behind it: a live updater's committed register is what meta.json holds
+RegistersMatchDisk == upd => creg = disk.docs
 \* C11: an error is never silent: documents are lost only if some call reported an error before
 \* the next Ok commit (implied by OkCommitIsComplete)
 =============================================================================
